@@ -97,6 +97,7 @@ pub mod c14;
 pub mod c13;
 pub mod c17;
 pub mod instr_io;
+pub mod files;
 pub mod c03;
 pub mod c16;
 pub mod c01;
